@@ -175,11 +175,11 @@ func fnName(fn *ssa.Function) string {
 			name = nt.Obj().Name()
 		}
 		if star != "" {
-			return fmt.Sprintf("%s.(*%s).%s", pk, name, fn.Name())
+			return canonical(fmt.Sprintf("%s.(*%s).%s", pk, name, fn.Name()))
 		}
-		return fmt.Sprintf("%s.%s.%s", pk, name, fn.Name())
+		return canonical(fmt.Sprintf("%s.%s.%s", pk, name, fn.Name()))
 	}
-	return pk + "." + fn.Name()
+	return canonical(pk + "." + fn.Name())
 }
 
 // objName renders a types.Func the same way fnName renders its SSA function.
@@ -207,11 +207,11 @@ func objName(f *types.Func) string {
 			name = "interface"
 		}
 		if star != "" {
-			return fmt.Sprintf("%s.(*%s).%s", pk, name, f.Name())
+			return canonical(fmt.Sprintf("%s.(*%s).%s", pk, name, f.Name()))
 		}
-		return fmt.Sprintf("%s.%s.%s", pk, name, f.Name())
+		return canonical(fmt.Sprintf("%s.%s.%s", pk, name, f.Name()))
 	}
-	return pk + "." + f.Name()
+	return canonical(pk + "." + f.Name())
 }
 
 // Func finds a module function by its stable name (see fnName). nil if absent.
